@@ -306,6 +306,8 @@ class Eval:
             if a.t == REAL and not self.spec and getattr(self.ex, "uses_inf", False):
                 # A2: arithmetic on finite floats stays finite (no overflow to +-inf)
                 fin = lambda z: z3.And(z != INF, z != -INF)
+                if getattr(self.ex.spec, "strict_inf", False):
+                    self.ob("inf-arith", z3.And(fin(a.z), fin(b.z)), n)
                 self.st.pc.append(z3.Implies(z3.And(fin(a.z), fin(b.z)), z3.And(r < INF, r > -INF)))
             return V(a.t, r)
         if isinstance(op, ast.Div):
